@@ -346,6 +346,24 @@ def norms_section(u, rec, M, D, N, L, sup1, sup2, tern, KI):
                 cmp("C16/norms/parseval", M.fourier_norm(Pj, Rj, **kw), M.spatial_norm(Pj, Rj, domain_extent=L, inner_exponent=p, outer_exponent=q), **info)
     cmp("C16/norms/fourier_aggregator_explicit_dims", M.fourier_aggregator(Pj[2], num_spatial_dims=D, num_points=N, domain_extent=L, inner_exponent=2.0, derivative_order=1),
         fo_agg(P[2], 2.0, None, None, None, 1))
+    # the named Fourier / Sobolev metrics with band limits and derivative orders (they are documented as the (p, q, mode) members of the family)
+    NAMED = {"MAE": (1.0, 1.0, "absolute"), "nMAE": (1.0, 1.0, "normalized"), "MSE": (2.0, 1.0, "absolute"), "nMSE": (2.0, 1.0, "normalized"),
+             "RMSE": (2.0, 0.5, "absolute"), "nRMSE": (2.0, 0.5, "normalized")}
+
+    def named_want(p, q, mode, low, high, s):
+        d, b = fo_agg(P - R, p, q, low, high, s), fo_agg(R, p, q, low, high, s)
+        if mode == "absolute":
+            return np.sum(d)
+        return np.sum(d / b) if np.all(b > 1e-9) else np.nan
+
+    for (nm, (p, q, mode)), (low, high), s in itertools.product(NAMED.items(), bands, (None, 1, 2)):
+        rec.dim("named", f"{nm}/{s}")
+        cmp(f"C16/norms/named/fourier_{nm}", getattr(M, "fourier_" + nm)(Pj, Rj, domain_extent=L, low=low, high=high, derivative_order=s),
+            named_want(p, q, mode, low, high, s), low=low, high=high, s=s)
+        if s is None:
+            with np.errstate(invalid="ignore"):
+                want_h1 = named_want(p, q, mode, low, high, None) + named_want(p, q, mode, low, high, 1)
+            cmp(f"C16/norms/named/H1_{nm}", getattr(M, "H1_" + nm)(Pj, Rj, domain_extent=L, low=low, high=high), want_h1, low=low, high=high)
     # the normalised L1 members of the Fourier family (values; the L2 members are bound to the spatial ones by Parseval above)
     for nm, pre in (("fourier_nMAE", "n"),):
         d, b = fo_agg(P - R, 1.0, 1.0, None, None, None), fo_agg(R, 1.0, 1.0, None, None, None)
